@@ -398,6 +398,10 @@ def msgAllowed (s : Session) (m : Msg) : Bool :=
 
 /-! ## Handlers -/
 
+/-- the record `handleMsgCreateSession` stores: nothing used, period starting at the block time -/
+def newSession (expires period : Int) (limit : Coins) (paths : List String) (now : Int) : Session :=
+  { expiresAt := expires, limit := limit, period := period, used := [], reset := now, paths := paths, seq := 0 }
+
 /-- `handleMsgCreateSession` (check order as in the source) -/
 def createSession (w : World) (src key : Nat) (expires period : Int) (limit : Coins) (paths : List String) : Except Err World :=
   if !w.exist (.m src) then .error .unknownAddress
@@ -410,35 +414,38 @@ def createSession (w : World) (src key : Nat) (expires period : Int) (limit : Co
   else if (paths.length : Int) > maxAllowPathsPerSession then .error .unauthorized
   else if paths.any (fun p => p == "" || p.endsWith "/") then .error .unauthorized
   else if (parsePaths paths).isNone then .error .unauthorized
-  else
-    let s : Session :=
-      { expiresAt := expires, limit := limit, period := period, used := [], reset := w.now, paths := paths, seq := 0 }
-    .ok { w with sess := setSess w.sess (src, key) s }
+  else .ok { w with sess := setSess w.sess (src, key) (newSession expires period limit paths w.now) }
 
 def ugnot (n : Int) : Coins := [("ugnot", n)]
+
+def setSink (w : World) (realm : Nat) (n : Int) : World :=
+  { w with sink := fun j => if j == realm then n else w.sink j }
+
+/-- `lockStorageDeposit`: the session hook, then the unrestricted transfer to the deposit address;
+    both errors come back wrapped by `fmt.Errorf` (class `StringError`) -/
+def lockDeposit (auth : List (Nat × Nat)) (w : World) (caller : Nat) (required : Int) : Except Err World :=
+  match hookDeduct auth w (.m caller) (ugnot required) with
+  | .error _ => .error .vm
+  | .ok w =>
+    match bankSendUnrestricted w (.m caller) none (ugnot required) with
+    | .error _ => .error .vm
+    | .ok w => .ok w
+
+/-- `refundStorageDeposit`: unrestricted transfer back to the caller; `used` is not touched -/
+def refundDeposit (w : World) (caller : Nat) (amount : Int) : Except Err World :=
+  match credit w (some (.m caller)) (ugnot amount) with
+  | .error _ => .error .vm
+  | .ok w => .ok w
 
 /-- `processStorageDeposit` for one sink realm whose data length goes from `cur` to `n`
     (storage diff = `n - cur` bytes, measured by the harness at start-up). -/
 def storageDeposit (auth : List (Nat × Nat)) (w : World) (caller : Nat) (realm : Nat) (n : Int) : Except Err World :=
   let diff := n - w.sink realm
-  let w := { w with sink := fun j => if j == realm then n else w.sink j }
   if diff > 0 then
-    let required := diff * storagePrice
-    if defaultDeposit < required then .error .vm
-    else
-      -- lockStorageDeposit: session hook, then the unrestricted transfer
-      match hookDeduct auth w (.m caller) (ugnot required) with
-      | .error _ => .error .vm
-      | .ok w =>
-        match bankSendUnrestricted w (.m caller) none (ugnot required) with
-        | .error _ => .error .vm
-        | .ok w => .ok w
-  else if diff < 0 then
-    -- refundStorageDeposit: unrestricted transfer back to the caller; `used` is not touched
-    match credit w (some (.m caller)) (ugnot ((-diff) * storagePrice)) with
-    | .error _ => .error .vm
-    | .ok w => .ok w
-  else .ok w
+    if defaultDeposit < diff * storagePrice then .error .vm
+    else lockDeposit auth (setSink w realm n) caller (diff * storagePrice)
+  else if diff < 0 then refundDeposit (setSink w realm n) caller ((-diff) * storagePrice)
+  else .ok (setSink w realm n)
 
 /-- one message handler (`bank`, `vm`, `auth` routes) -/
 def execMsg (auth : List (Nat × Nat)) (w : World) : Msg → Except Err World
